@@ -559,6 +559,10 @@ def rule_refuse(ctx):
 
 
 def run(ctx):
+    from ..report import SubCtx
+    from . import c07
+    sub = SubCtx(ctx, 'C06.nest', 'nested bundles and completion blobs are encoded by _build_bundle/_build_msg with one send instant: the element handling decided for C07')
+    c07.rule_nest(sub)
     rule_refuse(ctx)
     rule_codec(ctx)
     rule_pad(ctx)
